@@ -695,21 +695,28 @@ func (tdsChan *Channel) sendPacket(packet *Packet, last bool) error {
 }
 
 // queueError records an error for the consumer. The error is dropped if
-// the channel is being closed while the error queue is full.
+// the channel or the connection is being closed while the error queue
+// is full.
 func (tdsChan *Channel) queueError(err error) {
 	select {
 	case tdsChan.errCh <- err:
 	case <-tdsChan.closing:
+	case <-tdsChan.tdsConn.ctx.Done():
 	}
 }
 
 // deliver passes a package to the consumer. It returns false if the
-// channel is being closed while the package queue is full.
+// channel or the connection is being closed while the package queue is
+// full.
 func (tdsChan *Channel) deliver(pkg Package) bool {
 	select {
 	case tdsChan.packageCh <- pkg:
 		return true
 	case <-tdsChan.closing:
+		return false
+	case <-tdsChan.tdsConn.ctx.Done():
+		// The connection was closed. A channel that was created while
+		// Conn.Close was running is not closed by it.
 		return false
 	}
 }
